@@ -163,13 +163,18 @@ class Douglas(DiscriminativeModel):
         # Then, compute all feature kronecker derivatives
         axes_for_reshape = tuple([-1] + [len(x[1]) + 1 for x in self.cut_points_list_])
         binning_backprop = binning_backprop.reshape(axes_for_reshape)
-        # We must multiply the binning gradient by all binnings
-        binning_backprop *= self._leaf.reshape(axes_for_reshape)
 
         # Compute individual cut points backprop
         for i, (_, cut_points) in enumerate(self.cut_points_list_):
             axes_for_sum = tuple([1 + j for j in range(len(self.cut_points_list_)) if i != j])
-            softmax_grad = binning_backprop.sum(axes_for_sum) / self._all_binnings[i]
+            # We must multiply the binning gradient by the binnings of all other features
+            other_binnings = binning_backprop
+            for j, binning in enumerate(self._all_binnings):
+                if i != j:
+                    broadcast_shape = [1] * len(axes_for_reshape)
+                    broadcast_shape[0], broadcast_shape[j + 1] = binning.shape
+                    other_binnings = other_binnings * binning.reshape(broadcast_shape)
+            softmax_grad = other_binnings.sum(axes_for_sum)
 
             bin_grad = self._all_binnings[i] * (
                     softmax_grad - (self._all_binnings[i] * softmax_grad).sum(1, keepdims=True))  # Shape Nx(d+1)
